@@ -86,14 +86,29 @@ def _make_masses(shape, mass):
     return a, b
 
 
-def make_images(grid, a, b):
+def storage_dtype(a, b, dtype):
+    """The numpy dtype in which the pair can be stored exactly, or float64 if `dtype` cannot hold it
+    (non-integral values after scaling, entries beyond the integer range)."""
+    if not dtype or dtype == "float64":
+        return np.dtype(float)
+    dt = np.dtype(dtype)
+    for arr in (np.asarray(a, float), np.asarray(b, float)):
+        if not np.array_equal(arr.astype(dt).astype(float), arr):
+            return np.dtype(float)
+    return dt
+
+
+def make_images(grid, a, b, dtype=None):
+    """The pair as scalar darsia images; `dtype` (e.g. 'uint8', 'int32', 'float32') is the storage type
+    of the pixel data when it represents the values exactly (photographs are integer-typed)."""
     import darsia
 
     shape, vox = grid["shape"], grid["vox"]
     dims = [s * v for s, v in zip(shape, vox)]
     kw = dict(space_dim=len(shape), scalar=True)
-    return (darsia.Image(np.array(a, dtype=float), dimensions=list(dims), **kw),
-            darsia.Image(np.array(b, dtype=float), dimensions=list(dims), **kw))
+    dt = storage_dtype(a, b, dtype)
+    return (darsia.Image(np.array(a, dtype=float).astype(dt), dimensions=list(dims), **kw),
+            darsia.Image(np.array(b, dtype=float).astype(dt), dimensions=list(dims), **kw))
 
 
 def make_weight(grid, wspec):
@@ -275,8 +290,9 @@ FAULT_TYPES = {
 }
 
 
-def inject_fault(w1, at_call, point="linear_solve", exc="runtime"):
-    """One-shot exception in the `at_call`-th call (counted from 0) of an inner step of the solver:
+def inject_fault(w1, at_call, point="linear_solve", exc="runtime", sticky=False):
+    """One-shot (or, with `sticky`, persistent from then on) exception in the `at_call`-th call (counted
+    from 0) of an inner step of the solver:
     the linear solve (call 0 = initial Darcy solve, outside the iteration), the mobility / face-weight
     computation, the Anderson mixing or the evaluation of the cost.  Bound methods are wrapped on the
     instance; no source hook."""
@@ -286,7 +302,7 @@ def inject_fault(w1, at_call, point="linear_solve", exc="runtime"):
         def wrapped(*a, **k):
             i = state["n"]
             state["n"] += 1
-            if i == at_call and not state["fired"]:
+            if (i == at_call and not state["fired"]) or (sticky and i > at_call):
                 state["fired"] = True
                 cls = FAULT_TYPES.get(exc) or InjectedFault
                 raise cls(f"injected failure of {point} call {i}")
@@ -324,6 +340,21 @@ def ref_quadrature(dim, l1_mode):
     pts = np.array(list(itertools.product(x, repeat=dim)))
     wts = np.array([np.prod(c) for c in itertools.product(w, repeat=dim)])
     return pts, wts
+
+
+def ref_cell_flux(refgrid, flat_flux):
+    """Cell-centre reconstruction of a face flux with the harness's own bookkeeping: per axis the mean
+    of the fluxes through the lower and the upper face of the cell (0 on the boundary)."""
+    dim, shape = refgrid.dim, refgrid.shape
+    out = np.zeros((*shape, dim))
+    for idx in np.ndindex(*shape):
+        for d in range(dim):
+            l = list(idx)
+            l[d] -= 1
+            f_lo = refgrid.face_of(d, tuple(l))
+            f_hi = refgrid.face_of(d, idx)
+            out[idx + (d,)] = 0.5 * ((flat_flux[f_lo] if f_lo >= 0 else 0.0) + (flat_flux[f_hi] if f_hi >= 0 else 0.0))
+    return out
 
 
 def ref_cost(refgrid, flat_flux, l1_mode, cell_weights=None):
